@@ -21,7 +21,7 @@ REQUIRED = [f"contract:NonnegMean.{t}" for t in nn.TESTS] + ["stratum:len1", "st
 ASSUMPTIONS = ["samples are numpy arrays of dyadic floats in [0,u]; documented exclusions: finite-N SPRT with "
                "random_order=False (raises by design), Kaplan-Markov/Wald with finite N, optimal_comparison with u<=1",
                "numpy/pandas are trusted"]
-N_CASES = {"quick": 12000, "thorough": 300000}
+N_CASES = {"quick": 64000, "thorough": 2000000}
 
 
 def _post(testname):
